@@ -35,7 +35,10 @@ WeakKw == {"union", "raw", "safe", "auto", "default"}
 \* the keywords that cannot be raw identifiers, written with punctuation that the case conversion strips (PascalCase is not
 \* injective: self_, _self, self-, Self. all become Self)
 Decorated == {"self_", "_self", "self-", "Self.", "crate_", "super-", "SELF", "cRate"}
-Keywords == StrictKw \cup ReservedKw \cup WeakKw \cup Decorated
+\* NCNames of which the case conversion leaves nothing or a word that begins with a digit: they are not keywords, but they
+\* go through the same naming positions and must come out as identifiers (D44)
+Degenerate == {"_", "__", "_1", "_9lives", "_2020-01"}
+Keywords == StrictKw \cup ReservedKw \cup WeakKw \cup Decorated \cup Degenerate
 
 Space == IF Slice = "payload" THEN {[kind |-> "payload", at |-> p, cls |-> k] : p \in Sources, k \in Classes}
                                       \cup {[kind |-> "payload", at |-> "facet", cls |-> k] : k \in NumClasses}
